@@ -647,6 +647,19 @@ class Engine(Executor):
             return self.apply_ext(self.registry["extmethod:" + meth][0], "method." + meth, args, kwargs, s, node, recv=recv)
         if not owners and meth in ("append", "add") and len(args) == 1 and not kwargs:
             return self.heap_container_method(recv, meth, args[0], s, node)
+        if not owners and meth == "get" and len(args) in (1, 2) and not kwargs and all(isinstance(a_, Z) for a_ in args):
+            # dict.get(key[, default]) on a heap dict
+            t = recv.t
+            rid = V.get_rid(t)
+            out = []
+            for (s2, x) in self.need(s, z3.And(V.is_Ref(t), V.kind_of(rid) == V.K_DICT), "AttributeError", node, "receiver of .get() is a dict"):
+                if x is not None:
+                    out.append((s2, x))
+                    continue
+                cid = s2.sid(rid)
+                dflt = args[1].t if len(args) == 2 else V.VNone
+                out.append((s2, Z(z3.If(V.map_has(cid, args[0].t), V.map_get(cid, args[0].t), dflt))))
+            return out
         if not owners and meth in ("keys", "values", "items") and not args and not kwargs:
             # a view of a heap dict outside a loop header: an abstract sequence of its length
             t = recv.t
